@@ -42,9 +42,13 @@ def gen(tier, seed, shard, nshards):
     for k in range(1600 if tier == "quick" else 40000):
         if k % nshards == shard:
             yield "sampled-dag", {"masks": _gc.sampled_dag(("C08", seed, "sparse-big", k), 10, 14, max_edges=10)}
-    for k in range(64 if tier == "quick" else 3000):
+    for k in range(2400 if tier == "quick" else 60000):
         if k % nshards == shard:
-            yield "sampled-dag", {"masks": _gc.dense_dag(("C08", seed, "densedag", k))}
+            # dense DAGs on 6-7 nodes with any number of edges (class oracle: covered-edge reversals)
+            yield "sampled-dag", {"masks": _gc.dense_dag(("C08", seed, "densedag", k), p_choices=(6, 6, 7), min_density=0.55, max_edges=21)}
+    for k in range(600 if tier == "quick" else 12000):
+        if k % nshards == shard:
+            yield "sampled-dag", {"masks": _gc.meek_gadget_dag(("C08", seed, "gadget", k))}
     for c in _gc.iter_pdag_cases((3, 4), shard, nshards):
         yield "embedded-pdag", dict(c, P=9 + c["code"] % 5)
     for c in _gc.iter_dag_cases((3, 4, 5), shard, nshards):
@@ -53,7 +57,7 @@ def gen(tier, seed, shard, nshards):
     sidx = 0
     for pp in (6, 7, 8, 9, 10):
         for name in sorted(gmat.named_shapes(pp)):
-            for rep in range(2):
+            for rep in range(4 if name.startswith("chain-") else 2):      # label-dependent effects: several relabellings of the path shapes
                 if sidx % nshards == shard:
                     yield "shape-dag", {"p": pp, "shape": name, "rep": rep}
                 sidx += 1
@@ -105,7 +109,7 @@ def _expected_cpdag(members, p):
 def _compare(U, fn_name, arg, want, family, case, rec, ctx):
     if (sum(want) + len(want)) % 5 == 2:
         # history across routines: related routines asked about the same graph first, their results overwritten by the caller
-        _gc.scribble_related(U, np.asarray(arg), rec, ("order_edges", "pdag_to_dag", "mec", "maximally_orient", "only_directed", "skeleton",
+        _gc.scribble_related(U, np.asarray(arg), rec, ("order_edges", "pdag_to_dag", "mec" if _gc.n_undirected(want) <= 8 else "skeleton", "maximally_orient", "only_directed", "skeleton",
                                                         "pdag_to_cpdag" if fn_name == "dag_to_cpdag" else "dag_to_cpdag"))
     try:
         res = getattr(U, fn_name)(arg)
